@@ -154,7 +154,7 @@ REGISTRY["C23"] = ("sigclient", "run")
 _SC_TECH = ("TLC model checking of SignalingClient.tla (liveness under fairness against an abstract relay); TLC-enumerated relay histories (ClientEnv.tla) played against the real client; "
             "TLC-enumerated system histories (SigSysEnv.tla) played on the real relay server + real clients; recorded traces validated by TLC (ClientMon.tla, SigSysMon.tla)")
 _SC_NOTE = ("Client level: the relay is a harness fake of the generated SRPC client interface. System level: real relay and real clients over in-memory SRPC pipes "
-            "(client restarts that take over the session, applications that stop reading), liveness judged with a 6 s bound after stabilisation.")
+            "(client restarts that take over the session, applications that stop reading), liveness judged with a 20 s bound after stabilisation.")
 META["C19"] = dict(technique=_SC_TECH, note=_SC_NOTE,
     text="Every history (<= 5 steps) in which a malicious relay delivers honest, bit-flipped, third-key-claiming-the-partner, other-context and other-peer messages to a client session: "
          "ClientPeerRef.Recv only ever returns messages the partner signed under the signaling context, byte-identical.")
